@@ -23,7 +23,7 @@ CLAIMS = {
              "so that usize::MAX is not special, replace = delete;insert, split parts concatenate to the original; inverse laws "
              "insert;delete = identity, insert;substring reads the argument, delete;insert of the substring restores the data; a "
              "failing call keeps the data; the length after every operation), for all strings, offsets and counts; in the tree, "
-             "splitText puts the new node immediately after the split node (split_places_new_node_next, under C12's distinct ids); tie: the real text/comment/CDATA/merged-text nodes are driven through "
+             "splitText puts the new node immediately after the split node (split_places_new_node_next, under C12's distinct ids); over whole histories failed calls and reads leave no trace in the data; tie: the real text/comment/CDATA/merged-text nodes are driven through "
              "exhaustive single operations (all offsets/counts 0..len+2 and usize::MAX) and random operation sequences "
              "and must answer exactly as the proved model after every call.",
         note="Trusted: Lean kernel, harness `chardata`, generators. The model is hand-written (lean/XmlRsModel/CharData.lean); "
@@ -223,7 +223,7 @@ CLAIMS = {
     "C12": dict(
         text="Kernel-checked by induction over the history, for EVERY parsed document and EVERY sequence of the model's 25 DOM "
              "operations, successful or refused: every node id occurs exactly once in the forest of document tree and detached trees "
-             "(`no_node_twice`; invariant `Inv`, preserved by each operation `step_grow`, established by the initial numbering "
+             "(`no_node_twice`; identities are never re-used or invented, `identities_never_reused`; invariant `Inv`, preserved by each operation `step_grow`, established by the initial numbering "
              "`buildSt_inv`); hence the parent view and the child-list view agree in every reachable state "
              "(`views_agree_after_any_history`), a removed node and every detached root have no parent, no node lies beneath itself, "
              "a move loses and duplicates nothing (`insert/remove/replace_preserves_nodes`, as multiset equalities), inserting a node "
